@@ -137,7 +137,10 @@ def api_metricframe2(d, args):
 
     mf = MetricFrame(metrics={"sel": selection_rate, "n": count}, y_true=args["y"], y_pred=args["p"], sensitive_features=args["g2"],
                      sample_params={"sel": {"sample_weight": args["w"]}})
-    return {"by_group": canon(mf.by_group), "overall": canon(mf.overall), "difference": canon(mf.difference()), "group_min": canon(mf.group_min())}
+    bg = mf.by_group
+    if args.get("_drop_last_level"):
+        bg = bg.droplevel(-1)  # the constant third feature of the dict3_mixed container
+    return {"by_group": canon(bg), "overall": canon(mf.overall), "difference": canon(mf.difference()), "group_min": canon(mf.group_min())}
 
 
 def api_fairness(d, args):
@@ -238,7 +241,7 @@ KINDS = {
     "metricframe": {"y": VEC, "p": VEC, "w": ["list", "ndarray", "series"], "g": ["list", "ndarray", "series", "series_cat", "df_named", "dict", "dict_series", "col"],
                     "c": ["list", "ndarray", "series", "series_cat", "df_named", "dict", "dict_series"]},
     "fairness": {"y": VEC, "p": VEC, "w": ["list", "ndarray", "series"], "g": ["list", "ndarray", "series", "series_cat", "df_named", "dict", "dict_series"]},
-    "metricframe2": {"y": VEC, "p": VEC, "w": ["list", "ndarray", "series"], "g2": ["ndarray2d", "df2", "dict2", "dict2_series", "dict2_series"]},
+    "metricframe2": {"y": VEC, "p": VEC, "w": ["list", "ndarray", "series"], "g2": ["ndarray2d", "df2", "dict2", "dict2_series", "dict2_series", "dict3_mixed"]},
     "moments": {"y": VEC, "g": ["list", "ndarray", "series", "series_cat", "df", "df_named"], "c": ["list", "ndarray", "series", "series_cat", "df", "df_named"], "X": ["ndarray", "Xdf"]},
     "eg": {"y": VEC, "g": ["list", "ndarray", "series", "df", "df_named"], "c": ["list", "ndarray", "series", "df_named"], "X": ["ndarray", "Xdf"]},
     "grid": {"y": VEC, "g": ["list", "ndarray", "series", "df", "df_named"], "c": ["list", "ndarray", "series", "df_named"], "X": ["ndarray", "Xdf"]},
@@ -300,6 +303,14 @@ def build_args(rng, api, d, baseline):
                 args[arg] = np.column_stack([np.asarray(c_, dtype=object) for c_ in cols])
             elif kind == "df2":
                 args[arg] = pd.DataFrame({nm[0]: cols[0], nm[1]: cols[1]}, index=gen.hostile_index(d["n"], gen.pick(rng, [k for k in gen.INDEX_KINDS if k != "range"]), rng))
+                hostile = True
+            elif kind == "dict3_mixed":
+                # pandas and non-pandas values in one dict: two Series with different index labels plus a plain list (a constant third
+                # feature, so the groups - and, after dropping that level, the results - are those of the two-column baseline)
+                iks = [gen.pick(rng, ["shuffled", "reversed"]), gen.pick(rng, ["shuffled", "range"])]
+                args[arg] = {nm[j]: pd.Series(list(cols[j]), index=gen.hostile_index(d["n"], iks[j], rng)) for j in range(2)}
+                args[arg]["zz_const"] = ["k"] * d["n"] if rng.random() < 0.5 else np.asarray(["k"] * d["n"])
+                args["_drop_last_level"] = True
                 hostile = True
             elif kind == "dict2_series":
                 # two pandas columns that carry DIFFERENT index labels (each a permutation of 0..n-1, an offset range or strings)
